@@ -24,9 +24,11 @@ type c04 struct{}
 
 func init() { register(c04{}) }
 
-func (c04) ID() string        { return "C04" }
-func (c04) Level() string     { return "exploration" }
-func (c04) Technique() string { return "deterministic simulation: seeded Seek/Read histories of 1-3 interleaved reader clients over a simulated block store (benign short reads), checked step by step against an independent (content,pos) reference model; tape shrinking to a minimal history" }
+func (c04) ID() string    { return "C04" }
+func (c04) Level() string { return "exploration" }
+func (c04) Technique() string {
+	return "deterministic simulation: seeded Seek/Read histories of 1-3 interleaved reader clients over a simulated block store (benign short reads), checked step by step against an independent (content,pos) reference model; tape shrinking to a minimal history"
+}
 func (c04) Rule() string {
 	return "one evaluation = one seeded history (1-3 readers of one file node, up to 60/200 ops) on one generated file DAG; non-trivial = the DAG has >= 2 blocks and the history contains at least one Seek and one Read that returned data; distinct = distinct abstract signature (op kinds x offset class x outcome, plus seam event sequence)"
 }
@@ -37,7 +39,9 @@ func (c04) Assumptions() []string {
 		"after a Seek that must fail, the position is whatever Seek(0,SeekCurrent) reports next; the model resynchronises to it (the statement asks for consistency, not for an unchanged position)",
 	}
 }
-func (c04) RealStub() map[string]string { return realStub("reader clients are sequentially interleaved on one goroutine; no storage faults (statement has none)") }
+func (c04) RealStub() map[string]string {
+	return realStub("reader clients are sequentially interleaved on one goroutine; no storage faults (statement has none)")
+}
 func (c04) Runs(t Tier) int {
 	if t == Thorough {
 		return 60000
